@@ -88,6 +88,11 @@ func (d *jsonDecoder) cutFieldsBySize(data []byte) []byte {
 		if !v.Exists() || v.Type != gjson.String || len(v.Str) <= limit {
 			return jsonCutPos{}, false
 		}
+		// zero [v.Index] means the position is unknown:
+		// the value was computed (e.g. by a gjson modifier) and is not a part of data.
+		if v.Index == 0 {
+			return jsonCutPos{}, false
+		}
 
 		// [v.Index] is value start position including quote (").
 		// The positions are computed on the literal as written ([v.Raw]),
